@@ -402,3 +402,73 @@ func mutate(r *rand.Rand, s *Spec, giant bool) []mut {
 	}
 	return out
 }
+
+// scratchSizes are per-section sizes at and just below the caps an implementation is likely to put on
+// a single TD-HOB / TempMem section; a list of them probes whether the SUM of the declared sizes is
+// bounded, not only each section.
+var scratchSizes = []bval{{0x1000, "4KiB"}, {0x10000, "64KiB"}, {1 << 20, "1MiB"}, {16 << 20, "16MiB"}, {32 << 20, "32MiB"}, {60 << 20, "60MiB"},
+	{64<<20 - 0x1000, "64MiB-4KiB"}, {64 << 20, "64MiB"}}
+
+// scratchList appends k TempMem sections at distinct, non-overlapping, page-aligned addresses to a
+// well-formed spec: below 3.5 GiB (from 256 MiB upwards, clear of the sections wellFormed places at
+// 8..13 MiB and of the ROM window) when low is set and the list fits there, else above every RAM bank.
+// sizes has one element (uniform list) or k elements. The metadata is moved to the front of the image
+// so that as many sections fit as the image length allows; k is clipped to that room and returned.
+func scratchList(r *rand.Rand, s *Spec, k int, sizes []bval, low bool) (int, []mut) {
+	size := s.Size
+	s.Sev.Pos = 0
+	s.setOff(guidSevOff, uint32(size))
+	s.Tdx.Pos = 0x200
+	s.setOff(guidTdxOff, uint32(size-0x200-16))
+	room := (size-1024-0x200-32)/32 - len(s.Tdx.Secs)
+	if k > room {
+		k = room
+	}
+	if k < 1 {
+		return 0, []mut{{"tdx.scratch-list", "no room"}}
+	}
+	gap := uint64(r.IntN(2)) << 12
+	var total uint64
+	for i := 0; i < k; i++ {
+		total += sizes[i%len(sizes)].v + gap
+	}
+	base, where := uint64(21)<<40, "@high"
+	if low && total <= 0xd0000000 {
+		base, where = 0x10000000, "@low"
+	}
+	attr := uint32(0)
+	if r.IntN(4) == 0 {
+		attr = 1
+	}
+	if len(sizes) == 1 && k > 64 {
+		s.Tdx.Rep, s.Tdx.RepBase, s.Tdx.RepStep, s.Tdx.RepSize = k, base, sizes[0].v+gap, sizes[0].v
+	} else {
+		a := base
+		for i := 0; i < k; i++ {
+			v := sizes[i%len(sizes)].v
+			s.Tdx.Secs = append(s.Tdx.Secs, Sec32{Base: a, Size: v, Type: tdTempMem, Attr: attr})
+			a += v + gap
+		}
+	}
+	s.Tdx.Cnt += uint32(k)
+	s.Tdx.Len += uint32(32 * k)
+	if k > 100 {
+		// the hand-off block must be able to hold one 48-byte descriptor per section (plus RAM fragments),
+		// or every mode stops with "TD HOB buffer is overflowing" before anything is measured
+		need := (uint64(56+48*(k+len(s.Tdx.Secs)+80)+8) + 0xfff) &^ 0xfff
+		for j := range s.Tdx.Secs {
+			if s.Tdx.Secs[j].Type == tdHOB && s.Tdx.Secs[j].Size < need {
+				s.Tdx.Secs[j].Base, s.Tdx.Secs[j].Size = highBase(41), need
+			}
+		}
+	}
+	name := sizes[0].name
+	if len(sizes) > 1 {
+		name = "mixed"
+	}
+	kc := fmt.Sprint(k)
+	if k == room {
+		kc = "max"
+	}
+	return k, []mut{{"tdx.scratch-list" + where + "/k=" + kc, name}}
+}
